@@ -471,11 +471,18 @@ def chk_enum_rej_{en}_{pn}(kind, tag, n, c0, c1):
             mf.ob(f"flag_names_rt_{fn}_{st}", "oi: int, v: int", f"return flag_names_roundtrip({fn!r}, {st!r}, oi, v)",
                   pre=["0 <= oi < 8", "0 <= v < 16"], timeout=tmo, family="flag by member names: round trip",
                   bounds="all 2^n values x 8 option combinations x strict/lax")
-            nmax = 2 if quick else 3
             mf.ob(f"flag_names_rej_{fn}_{st}", "oi: int, rk: int, n: int, i0: int, i1: int, i2: int",
                   f"return flag_names_reject({fn!r}, {st!r}, oi, rk, n, i0, i1, i2)",
-                  pre=["0 <= oi < 8", "0 <= rk < 7", f"0 <= n <= {nmax}", "0 <= i0 < 9 and 0 <= i1 < 9 and 0 <= i2 < 9"], timeout=tmo * 2,
+                  pre=["0 <= oi < 8", "0 <= rk < 7", "0 <= n <= 2", "0 <= i0 < 9 and 0 <= i1 < 9 and 0 <= i2 < 9"], timeout=tmo * 2,
                   family="flag by member names: accepts exactly valid name lists",
-                  bounds=f"candidate: list/tuple/str/dict/None/int/iterator of <= {nmax} items from member names + near misses + non-str + unhashable; 8 option combinations")
+                  bounds="candidate: list/tuple/str/dict/None/int/iterator of <= 2 items from member names + near misses + non-str + unhashable; 8 option combinations")
+            if not quick:
+                # three items: one slice per option combination so that every path tree is exhausted
+                for oi in range(8):
+                    mf.ob(f"flag_names_rej_{fn}_{st}_n3_o{oi}", "rk: int, i0: int, i1: int, i2: int",
+                          f"return flag_names_reject({fn!r}, {st!r}, {oi}, rk, 3, i0, i1, i2)",
+                          pre=["0 <= rk < 7", "0 <= i0 < 9 and 0 <= i1 < 9 and 0 <= i2 < 9"], timeout=tmo * 2,
+                          family="flag by member names: accepts exactly valid name lists",
+                          bounds=f"candidate: list/tuple/str/dict/None/int/iterator of exactly 3 items from the 9-item pool; option combination {oi}")
     return Plan("C18", [m, mf, kflag_module()], assumptions=["bool/int look-alike data for int-valued enums are not counted as non-representations (True == 1)"],
                 bounds={"flag bits": "3"}, outside=["flags with more than 3 bits (K-flag covers the mask guard for all masks)", "members >= 2**53 (float log2)"])
